@@ -657,19 +657,20 @@ def flex_layout(context, box, bottom_space, skip_stack, containing_block, page_i
                 if child.margin_bottom == 'auto':
                     margins += 1
         if margins:
-            free_space /= margins
+            # Auto margins are 0 when the free space is not positive
+            margin_size = max(free_space, 0) / margins
             for index, child in line:
                 if main == 'width':
                     if child.margin_left == 'auto':
-                        child.margin_left = free_space
+                        child.margin_left = margin_size
                     if child.margin_right == 'auto':
-                        child.margin_right = free_space
+                        child.margin_right = margin_size
                 else:
                     if child.margin_top == 'auto':
-                        child.margin_top = free_space
+                        child.margin_top = margin_size
                     if child.margin_bottom == 'auto':
-                        child.margin_bottom = free_space
-            free_space = 0
+                        child.margin_bottom = margin_size
+            free_space = min(free_space, 0)
 
         if box.style['direction'] == 'rtl' and main == 'width':
             free_space *= -1
